@@ -22,6 +22,8 @@ def sh(cmd, cwd=None, env=None, timeout=3600):
     p = subprocess.run(cmd, shell=True, cwd=cwd, env=e, capture_output=True, text=True, timeout=timeout)
     return p.returncode, p.stdout + p.stderr
 
+SNAP = os.environ.get("KVERIF_RERUN_SNAP", "/verif")  # frozen copy of /verif to run the checks from (see seeded_rerun.py)
+
 def main():
     out_dir, k, name, broken = sys.argv[1:5]
     checks = [broken] + [c for c in sys.argv[5:] if c != broken]
@@ -76,9 +78,9 @@ def main():
             env2 = {"KVERIF_REPO": wt, "CARGO_TARGET_DIR": f"/tmp/mut/{name}-htarget", "KVERIF_ROOT": f"/tmp/mut/{name}-root"}
             os.makedirs(f"/tmp/mut/{name}-root", exist_ok=True)
             if not os.path.exists(f"/tmp/mut/{name}-root/KNOWN_FINDINGS.txt"):
-                shutil.copy("/verif/KNOWN_FINDINGS.txt", f"/tmp/mut/{name}-root/KNOWN_FINDINGS.txt")
-                shutil.copytree("/verif/replays/known", f"/tmp/mut/{name}-root/replays/known", dirs_exist_ok=True)
-            rc, o = sh(f"/verif/check {cid} quick", cwd="/verif", env=env2)
+                shutil.copy(f"{SNAP}/KNOWN_FINDINGS.txt", f"/tmp/mut/{name}-root/KNOWN_FINDINGS.txt")
+                shutil.copytree(f"{SNAP}/replays/known", f"/tmp/mut/{name}-root/replays/known", dirs_exist_ok=True)
+            rc, o = sh(f"{SNAP}/check {cid} quick", cwd=SNAP, env=env2)
             viol = [l for l in o.splitlines() if l.startswith("VIOLATION") or l.startswith("NOTE")]
             det[cid] = {"exit": rc, "detected": rc == 1, "wall_s": round(time.time() - t0, 1), "lines": viol[:4]}
         meta["checks"] = det
@@ -90,6 +92,8 @@ def main():
         shutil.rmtree(tgt, ignore_errors=True)
         shutil.rmtree(f"/tmp/mut/{name}-htarget", ignore_errors=True)
         shutil.rmtree(f"/tmp/mut/{name}-root", ignore_errors=True)
+        import hashlib
+        shutil.rmtree("/tmp/kverif-harness-" + hashlib.md5((wt + "\n").encode()).hexdigest()[:12], ignore_errors=True)
     dest = f"/verif/seeded/{name}"
     os.makedirs(dest, exist_ok=True)
     shutil.copy(os.path.join(out_dir, f"change{k}.patch"), f"{dest}/patch.diff")
